@@ -303,6 +303,22 @@ fn dispatch(name: &str, a: &mut Args) -> String {
 			}
 		},
 		"update_channel_probe" => update_channel_probe(a),
+		"check_mpp_timeout" => {
+			let n = a.usize();
+			let parts: Vec<(u64, u64, u8)> = (0..n).map(|_| (a.u64(), a.u64(), a.u8())).collect();
+			let total = a.u64();
+			let (r, ticks) = lightning::ln::channelmanager::verif_hooks::check_mpp_timeout_probe(&parts, total);
+			format!("{} {}", r as u8, ticks.iter().map(|t| t.to_string()).collect::<Vec<_>>().join(" "))
+		},
+		"merge_probe" => {
+			let ai = a.inputs();
+			let av = (a.u32(), a.u64(), a.u32());
+			let bi = a.inputs();
+			let bv = (a.u32(), a.u64(), a.u32());
+			let h = a.u32();
+			let r = lightning::verif::package::merge_probe(&ai, av, &bi, bv, h);
+			format!("{} {} {} {} {}", r.0 as u8, r.1, r.2, r.3, r.4)
+		},
 		"create_recv_probe" => {
 			let (oamt, ocltv, total, amt, cltv, under, skim, h) =
 				(a.u64(), a.u32(), a.u64(), a.u64(), a.u32(), a.bool(), a.opt_u64(), a.u32());
